@@ -10,6 +10,7 @@ import re
 import subprocess
 import sys
 import time
+import traceback
 
 VERIF = os.path.dirname(os.path.dirname(os.path.abspath(__file__)))
 LEAN = os.path.join(VERIF, "lean")
@@ -140,6 +141,20 @@ class Ctx:
 
     def thorough(self):
         return self.tier == "thorough"
+
+    # ------------------------------------------------------------------ phases
+    def guard(self, name, fn, *a, **k):
+        """run one tie phase (trace validation, correspondence, ...): an exception inside it -- typically because the code changed shape
+        under the harness -- breaks the obligation `phase:<name>` but does NOT end the run: the failing-input search on the real code must
+        still be carried out (a broken tie is not a verdict)."""
+        try:
+            return fn(*a, **k)
+        except Exception:
+            tb = traceback.format_exc()
+            self.log("PHASE %s RAISED\n%s" % (name, tb[-1500:]))
+            self.broken.append(("phase:" + name, tb[-1200:]))
+            self.obligations["phase:" + name] = False
+            return None
 
     # ------------------------------------------------------------------ lean
     def _hold_genbuild(self):
